@@ -58,6 +58,7 @@ def encPrim (p : Prim) (v : Val) (st : EncSt) : Outcome (Bytes × EncSt) :=
   | .weekday, .int n => if 1 ≤ n ∧ n ≤ 7 then .ok ([byteOf n.toNat], st) else illTyped
   | .month, .int n => if 1 ≤ n ∧ n ≤ 12 then .ok ([byteOf n.toNat], st) else illTyped
   | .fixedOffset, .int n => if -86400 < n ∧ n < 86400 then .ok (0 :: zz n, st) else illTyped
+  | .varu32, .int n => if 0 ≤ n ∧ n < 2 ^ 32 then .ok (uv n.toNat, st) else illTyped
   | _, _ => illTyped
 
 /-- `FieldPosition::to_byte` -/
